@@ -46,3 +46,20 @@ props["C11"]["manifest"] = {
     "note": "Trusted: Lean kernel and the three standard axioms; logos' character classification (an input of the model); LALRPOP consuming its whole iterator before returning Ok; the harness and compiled driver.",
     "technique": "Lean 4 theorems about a mirrored lexer loop + differential correspondence with Lexer/LexicalTokens + root-span oracle",
 }
+
+props["C04"] = {
+    "harness": "c04",
+    "level": "proof",
+    "nontrivial": r"^c04 (match|comatch) .* R [1-9]",
+    "rule": "each case is a generated signature (1-4 data types: empty, single, sums, recursive, with unit / product / named-field / opaque arguments, declared transparently or sealed), a scrutinee type and 0-10 arms (random typed patterns, or a covering split with arms dropped / added / shuffled, n-ary product patterns in random groupings); the real checker's CoverageError (exact witness list and truncation flag) is compared with the Lean mirror of coverage.rs, and the verdict is cross-checked against enumeration of the scrutinee's values. Non-trivial = distinct requests with at least one arm.",
+    "explanation": "Kernel-checked: termination of the mirrored matrix algorithm (well-founded on (non-wildcard nodes, columns)), the 9-row bound, comatch completeness, and the semantic theorems listed under `theorems` (statements whose proof has not landed yet are kept as `Statement.*` propositions in ZV/Props/C04.lean and are NOT counted as obligations). The mirror is compared with the real checker on every generated program (exact witnesses), and the verdict with value enumeration.",
+    "trusted_base": [KERNEL, AXIOMS, HARNESS,
+                     "modelled, not verified: lang/statics/src/validate/coverage.rs is mirrored by ZV/Model/Coverage.lean (binary products only, as from_typed produces) and compared on every run; the hints recorded during checking (data_hints, data_pat_hints) and the typed-pattern construction are exercised through source programs, not modelled"],
+    "assumptions": ["run-time arm selection (eval.rs Assign) agrees with MPat.matches: covered by the C01/C02 machine correspondence"],
+}
+
+props["C04"]["manifest"] = {
+    "text": "The matrix algorithm of coverage.rs is mirrored definition for definition in Lean (its termination proof is itself an obligation) and compared with the real checker's CoverageError output - exact witness lists and truncation flag - on generated match/comatch/copattern programs; the semantic theorems (soundness of acceptance unconditionally, witness soundness and completeness under AllInhabited) are stated in full in ZV/Props/C04.lean and proved there as they land; the verdict is additionally cross-checked against enumeration of the scrutinee's values on every case.",
+    "note": "Trusted: Lean kernel and the three standard axioms; the harness/driver. Not modelled: the hints recorded during type checking and copattern elaboration (exercised through source programs). Known finding: matches over types with uninhabited components are over-rejected (known-findings.json).",
+    "technique": "Lean 4 mirror of the pattern-matrix algorithm with kernel-checked termination and semantic theorems + differential correspondence on generated programs",
+}
